@@ -199,7 +199,10 @@ func (s *Stdio) IO(ctx context.Context) (chan interface{}, chan *Result, error) 
 					if s.state != nil {
 						if m.Deleted {
 							delete(s.state, mid)
-						} else {
+						}
+						if !m.Deleted || m.State != nil {
+							// Deleted with a State: the
+							// machine was replaced.
 							n, have := s.state[mid]
 							if !have {
 								n = &crew.Machine{}
